@@ -41,10 +41,20 @@ def base_cfg(world) -> Cfg:
     cfg.field_types[("ModelFunction", "enabled")] = "bool"
     cfg.field_types[("ModelFunction", "_name")] = "str"
     cfg.field_types[("ModelFunction", "_func_name")] = "str"
+    # the resolved callable of a model is ANY callable object (function, functools.partial, instance with __call__, ...): the
+    # function attributes (__name__, __module__, __qualname__, __deprecated__ ...) may be present or not
+    cfg.field_types[("ModelFunction", "_func")] = ("opaque", "usercallable")
+    cfg.lib_overrides[("opaque_attr", "usercallable")] = user_callable_attr
     cfg.lib_overrides[("sym_attr", "exc")] = exc_attr
     cfg.lib_overrides["symexc.add_note"] = exc_add_note
     cfg.lib_overrides[("deepcopy", "seq")] = lambda ex, v, dc, fr: v
     return cfg
+
+
+def user_callable_attr(ex, obj, name, fr):
+    if ex.st.branch(ex.st.fresh_bool(f"callable_has_{name.strip('_')}")):
+        return VStr(ex.st.fresh_str(f"callable_{name.strip('_')}"))
+    ex.throw("AttributeError", f"callable object has no attribute {name!r}")
 
 
 def exc_attr(ex, obj, name, fr):
